@@ -272,6 +272,9 @@ def _schemas():
 
 def budgeted_deserialize(g, schemas, data):
     """TlSchemas.deserialize(data) with every (recursive) invocation counted; more than 4*len+64 -> BudgetExceeded"""
+    import threading
+    if threading.current_thread() is not threading.main_thread():
+        return call(schemas.deserialize, data)        # the counting wrapper patches the class: main thread only (two-threads runs uncounted)
     orig = g.TlSchemas.deserialize
     limit = 4 * len(data) + 64
     n = [0]
@@ -1270,3 +1273,8 @@ SUBCHECKS = [
         note='8 coverage-guided libFuzzer campaigns x 60000 executions over TlSchemas.deserialize (7 seeded with reference '
              'encodings of up to 400 constructors, 1 from an empty corpus); oracle = raw-bytes inside the target'),
 ]
+
+# the same generated cases, several at a time, checked by threads that run at the same time (core.run_overlapping): per-call state
+# kept in a place two calls share shows only there
+SUBCHECKS.append(__import__('harness.core', fromlist=['overlapped']).overlapped(next(s for s in SUBCHECKS if s.name == 'random'), k=4, n=(80, 4000)))
+SUBCHECKS.append(__import__('harness.core', fromlist=['overlapped']).overlapped(next(s for s in SUBCHECKS if s.name == 'string-framing'), k=4, n=(40, 2000), name='two-threads-strings'))
